@@ -564,6 +564,18 @@ class Prov:
             v = self._closure_value(args[1], [payload])
             if v is not None:
                 return ("agg", "Option", "Some", (("0", v),))
+        if c["name"] in ("map_or", "is_some_and") and len(args) in (2, 3):
+            # opt.map_or(false, |x| p(x))  ==  opt.is_some_and(|x| p(x))  ==  opt.is_some() && p(payload)
+            clo = args[-1]
+            dflt = strip(args[1]) if c["name"] == "map_or" else ("const", False)
+            if dflt == ("const", False):
+                payload = _project(_project(args[0], "as Some"), "0")
+                v = self._closure_value(clo, [payload])
+                if v is not None:
+                    some = ("call", "core::option::Option::is_some", "is_some", (args[0],))
+                    return ("call", "bool::and", "and", (some, v))
+        if c["name"] == "as_ref" and len(args) == 1 and "option::" in c.get("path", "").lower():
+            return args[0]
         if c["name"] == "filter" and len(args) == 2:
             payload = _project(_project(args[0], "as Some"), "0")
             pred = self._closure_value(args[1], [("ref", payload)])
